@@ -61,6 +61,12 @@ func (fr *Frame) instr(st *State, in ssa.Instruction) bool {
 	case *ssa.Alloc:
 		loc := x.alloc(st, in.Comment)
 		fr.env[in] = c.define(in.Name(), "Loc", loc)
+		if !in.Heap {
+			x.privateRefs = append(x.privateRefs, sx("ref", loc))
+			for _, o := range x.outsideRefs {
+				c.assume(not(eq(o, sx("ref", loc))))
+			}
+		}
 		x.zeroInit(st, in.Type().Underlying().(*types.Pointer).Elem(), fr.env[in])
 	case *ssa.BinOp:
 		def(in, fr.binop(st, in.Op, in.X.Type(), in.Y.Type(), fr.val(in.X), fr.val(in.Y), in.Pos()))
@@ -449,7 +455,10 @@ func (x *Exec) equal(t types.Type, a, b string) string {
 		if strings.HasPrefix(a, "(mk_slice nil") {
 			return eq(sx("sl_arr", b), "nil")
 		}
-		return eq(sx("sl_arr", a), "nil")
+		if strings.HasPrefix(b, "(mk_slice nil") {
+			return eq(sx("sl_arr", a), "nil")
+		}
+		return eq(a, b) // specification-level identity of two slice values
 	}
 	return eq(a, b)
 }
@@ -525,6 +534,13 @@ func (fr *Frame) convert(st *State, in *ssa.Convert) string {
 	case fs == "Slice" && ts == "Str": // string(bytes)
 		r := c.freshConst("str", "Str")
 		c.assume(implies(st.Reach, eq(sx("s_len", r), sx("sl_len", a))))
+		if ii, ok := basicInt(from.Underlying().(*types.Slice).Elem()); ok && ii.w == 8 {
+			// string(b) is the content of b as a byte string
+			c.assume(implies(st.Reach, eq(r, x.bstrOf(st, a))))
+		}
+		if c.Int {
+			return r // bytes are mathematical integers in this mode: content only through bstr
+		}
 		// content: r[i] == a[i]
 		h := x.get(st, "H:(_ BitVec 8)")
 		i := c.fresh("i")
@@ -535,9 +551,14 @@ func (fr *Frame) convert(st *State, in *ssa.Convert) string {
 		arr := c.define("arr", "Loc", x.alloc(st, "bytes"))
 		n := sx("s_len", a)
 		r := sx("mk_slice", arr, c.idx(0), n, n)
-		x.bulkWrite(st, types.Typ[types.Uint8], arr, c.idx(0), n, func(i string, lp leafPath, pre map[string]string) string {
-			return sx("s_at", a, i)
-		})
+		if c.Int {
+			x.havocObject(st, map[string]bool{"Byte": true}, arr)
+		} else {
+			x.bulkWrite(st, types.Typ[types.Uint8], arr, c.idx(0), n, func(i string, lp leafPath, pre map[string]string) string {
+				return sx("s_at", a, i)
+			})
+		}
+		c.assume(implies(st.Reach, eq(x.bstrOf(st, r), a)))
 		return r
 	case fs == ts:
 		return a
